@@ -950,7 +950,7 @@ func init() { registerReplay("C04", propC04) }
 
 const c04Rule = "rapid-generated (thorough: exhaustive grid for scripts of <=2 messages per direction): carrier x RPC kind x {cancel, deadline (harness-owned context whose Done the harness closes)} x handler attitude (ignores its context, returns ctx.Err() when it notices, blocks on ctx.Done(), blocked in an extra RecvMsg) x placement of the instant: before the call, before each client step, synchronously at each handler step, at the in-process unary schedule points (server start, before each frame write, after each frame read, optionally holding the server until the client is past the instant; repeated 4..16 times because Go's select chooses randomly), at the k-th I/O call on the client's connection (HTTP); " +
 	"oracle: every receive/Invoke at or after the instant returns within 20 s with either the complete real result (next message of the model; io.EOF/nil only if the handler returned nil and everything incl. headers and trailers was delivered; the handler's own status) or a status error with code Canceled/DeadlineExceeded - never a non-status error, never success with missing data; repeated receives keep failing; the handler's context ends within the bound (in-process); a handler returning its context error gives the client the matching code; grpc-go arbitrates deviations at script-level placements; " +
-	"also generated since the seeded rounds: wrapped context errors, handlers returning their send error, iosplit placements (context ends inside a frame), mode server-deadline (a deadline 3..30 ms ahead that only the server's timer sees: handler returns its context's error, caller must get a DeadlineExceeded status), and: a nil RecvMsg on a single-response stream implies the handler returned nil; " +
+	"also generated since the seeded rounds: wrapped context errors, handlers returning their send error, iosplit placements (context ends inside a frame), mode server-deadline (a deadline 3..30 ms ahead that only the server's timer sees: handler returns its context's error, caller must get a DeadlineExceeded status), per-RPC credentials on the call at every placement, the per-method HTTP server form, and: a nil RecvMsg on a single-response stream implies the handler returned nil; " +
 	"non-trivial = the instant fell inside the call; distinct by case hash"
 
 func TestC04(t *testing.T) {
